@@ -166,6 +166,8 @@ static void accepted_identity(const std::vector<uint8_t> &bytes, en::CaseOut &o)
     if(l1->version >= 2 || l1->version == 0) { if(!WOPN_BanksCmp(l1, l2)) { same = false; why = "WOPN_BanksCmp(load(x), load(save(load(x)))) == 0, loaded version " + std::to_string(l1->version) + " reloaded version " + std::to_string(l2->version); } }
     else {
         if(l1->version != l2->version || l1->banks_count_melodic != l2->banks_count_melodic || l1->banks_count_percussion != l2->banks_count_percussion || l1->lfo_freq != l2->lfo_freq) { same = false; why = "header"; }
+        // identity includes the fields version 1 does not carry: whatever the loader put there must come back (the unchanged loader leaves them at their defaults for a version-1 file)
+        if(same && (l1->chip_type != l2->chip_type || l1->volume_model != l2->volume_model)) { same = false; why = "chip_type " + std::to_string(l1->chip_type) + " -> " + std::to_string(l2->chip_type) + ", volume_model " + std::to_string(l1->volume_model) + " -> " + std::to_string(l2->volume_model) + " (version 1 image)"; }
         for(int s = 0; same && s < 2; s++) { WOPNBank *a = s ? l1->banks_percussive : l1->banks_melodic, *b = s ? l2->banks_percussive : l2->banks_melodic; unsigned n = s ? l1->banks_count_percussion : l1->banks_count_melodic;
             for(unsigned i = 0; same && i < n; i++) for(int k = 0; same && k < 128; k++) { WOPNInstrument x = a[i].ins[k], y = b[i].ins[k]; x.inst_flags = y.inst_flags = 0; x.delay_on_ms = y.delay_on_ms = 0; x.delay_off_ms = y.delay_off_ms = 0; if(!ins_eq(x, y, why)) same = false; } }
     }
